@@ -537,3 +537,26 @@ def build_T11d(tree):
 
 
 TARGETS['T11d'] = {'file': 'io.py', 'build': build_T11d}
+
+
+def build_T11e(tree):
+    """io.ImageFileReader.read_frame: which expression is handed to each parameter of decode_frame (forwarding table);
+    the frame data come from read_frame_raw(index) with the same index."""
+    fn = find_func(tree, 'ImageFileReader.read_frame')
+    calls = [n for n in ast.walk(fn) if isinstance(n, ast.Call) and ast.unparse(n.func) == 'decode_frame']
+    if len(calls) != 1:
+        raise Unsupported(f'read_frame: expected exactly one decode_frame call, found {len(calls)}')
+    c = calls[0]
+    if len(c.args) != 1 or any(k.arg is None for k in c.keywords):
+        raise Unsupported('read_frame: decode_frame is no longer called as decode_frame(<data>, keyword=…)')
+    data_src = [n for n in ast.walk(fn) if isinstance(n, ast.Assign) and ast.unparse(n.targets[0]) == ast.unparse(c.args[0])]
+    if len(data_src) != 1:
+        raise Unsupported('read_frame: the frame data handed to decode_frame are not assigned exactly once')
+    rows = [('value', ast.unparse(data_src[0].value))] + sorted((k.arg, ast.unparse(k.value)) for k in c.keywords)
+    q = lambda t: '"' + t.replace('\\', '\\\\').replace('"', '\\"') + '"'   # noqa: E731
+    text = ('/-- `ImageFileReader.read_frame`: parameter of `decode_frame` ↦ source expression handed to it -/\n'
+            'def readerDecodeArgs : List (String × String) :=\n  [' + ',\n   '.join(f'({q(a)}, {q(b)})' for a, b in rows) + ']')
+    return text, hashlib.sha256(repr(rows).encode()).hexdigest()
+
+
+TARGETS['T11e'] = {'file': 'io.py', 'build': build_T11e}
